@@ -1,7 +1,7 @@
 #!/usr/bin/env python3
 """Confirm a seeded change and run the checks against it.
 
-usage: seedcheck.py <src dir with patch.diff, demo_test.go, meta.json> <seed id> [--keep] [--props C01,C07] [--tier quick]
+usage: seedcheck.py <src dir with patch.diff, demo_test.go, meta.json> <seed id> [--keep] [--props C01,C07] [--tier quick] [--no-check]
 
 1. in a scratch worktree of /repo (outside /repo and /verif): patch applies, builds, the existing tests pass,
    the demonstration fails with the patch and passes without it;
@@ -60,6 +60,10 @@ def main():
         import re as _re
         mt = _re.search(r"-tags[ =](\w+)", cmds)
         if mt: race += " -tags " + mt.group(1)
+        mr = _re.search(r"-run[ =]'?\"?([\w^$|]+)", cmds)
+        if mr and race.startswith("-race"):
+            # under the race detector only the demonstration is run: an existing test of the package may race in its own test code
+            race += " -run '" + mr.group(1) + "'"
         rc1, out1 = sh(f"go test {race} -count=1 ./{demo_dir}/ 2>&1 | tail -40", cwd=wt, timeout=1200)
         failed_with = ("FAIL" in out1) or ("panic:" in out1)
         rec["demo_fails_with_change"] = failed_with
@@ -76,6 +80,9 @@ def main():
         shutil.rmtree(wt, ignore_errors=True)
     confirmed = all(rec.get(k) for k in ["applies", "builds", "existing_tests_pass_with_change", "demo_fails_with_change", "demo_passes_without_change"])
     rec["confirmed"] = confirmed
+    if "--no-check" in sys.argv:
+        # confirmation only; detection is recorded by tools/regress.py (scratch worktrees)
+        return finish(rec, src, sid, keep and confirmed)
     # run checks against /repo with the patch applied
     rc, st = sh("git -C /repo status --porcelain --untracked-files=no")
     assert st.strip() == "", "/repo has uncommitted tracked changes: " + st
